@@ -33,6 +33,14 @@ func OpenListErr(b []byte) (List, error) {
 
 // ParseList recursively parses and returns a list.
 func ParseList(b []byte) (l List, size int, err error) {
+	return parseList(b, 0)
+}
+
+func parseList(b []byte, depth int) (l List, size int, err error) {
+	if depth > maxParseDepth {
+		return List{}, 0, errParseDepth
+	}
+
 	l, size, err = decodeList(b)
 	if err != nil {
 		return List{}, 0, err
@@ -45,7 +53,7 @@ func ParseList(b []byte) (l List, size int, err error) {
 			continue
 		}
 
-		if _, _, err = ParseValue(b1); err != nil {
+		if _, _, err = parseValue(b1, depth+1); err != nil {
 			return
 		}
 	}
